@@ -1,7 +1,8 @@
 (* C19, silence: the well-formed documents of the end-to-end theorems are rendered without a diagnostic. *)
 From Rimu Require Import Base Unicode Regex RegexAnalysis RegexParse Str Types Tables Guards State Inline Block
   Frame FrameBlock FrameInst OptionsLemmas MiscLemmas MoreLemmas Plain TableFacts Lines PlainDoc
-  RegexSem MatchLemmas MatchExact ScanLemmas ParaDoc Emphasis EmDoc HtmlTag TagDoc HeaderDoc CodeBlock ListDoc MacroSubst MacroDefine MacroDoc.
+  RegexSem MatchLemmas MatchExact ScanLemmas ParaDoc Emphasis EmDoc HtmlTag TagDoc HeaderDoc CodeBlock ListDoc MacroSubst MacroDefine MacroDoc
+  Compose QuoteBlock DivBlock IndentDoc GreedyLoop AttrDoc.
 From Coq Require Import Lia.
 Local Open Scope monad_scope.
 
@@ -55,4 +56,36 @@ Proof.
   assert (Hdd : str_eqb name ($"--") = false) by (apply str_eqb_neq; exact Hne).
   unfold macros_setValue, bind, gets in Hset. rewrite Hs, Hq63, Hdd in Hset. cbn [andb] in Hset. unfold modify in Hset.
   inversion Hset. destruct s; reflexivity.
+Qed.
+
+(* ---- the compositional documents ---- *)
+Theorem class_paragraph_silent n a w l R s (Hpl : para_line (ienv_of s) l R) :
+  quiet_default s -> parse_skip (s_mode s) = false -> cls_name_ok a w ->
+  silent (doc_render (S (S (S (S (S n))))) (ba_line a w ++ 10 :: l) s) s.
+Proof. intros. rewrite (class_paragraph_document n a w l R s Hpl) by assumption. apply silent_same. Qed.
+
+Theorem quote_paragraph_silent n l R s (Hpl : para_line (ienv_of s) l R) : quiet_default s -> l <> qfence ->
+  silent (doc_render (S (S (S (S (S (S (S n))))))) (qfence ++ 10 :: l ++ 10 :: qfence) s) s.
+Proof.
+  intros. rewrite (quote_paragraph_document n l R s Hpl) by assumption. eexists _, _. split; [reflexivity|].
+  unfold quote_open, set_closeRe. destruct s; reflexivity.
+Qed.
+
+Theorem division_paragraph_silent n l R s (Hpl : para_line (ienv_of s) l R) : quiet_default s -> l <> dfence ->
+  silent (doc_render (S (S (S (S (S (S (S n))))))) (dfence ++ 10 :: l ++ 10 :: dfence) s) s.
+Proof.
+  intros. rewrite (div_paragraph_document n l R s Hpl) by assumption. eexists _, _. split; [reflexivity|].
+  unfold div_open, set_closeRe. destruct s; reflexivity.
+Qed.
+
+Theorem indented_silent n sp body s : quiet_default s -> spaces sp -> ind_body_ok body ->
+  silent (doc_render (S (S (S n))) (ind_line sp body) s) s.
+Proof. intros. rewrite indented_document by assumption. apply silent_same. Qed.
+
+Theorem code_then_paragraph_silent n k doc content l R s (Hpl : para_line (ienv_of s) l R) :
+  quiet_default s -> Forall nlfree content -> ~ In fence content ->
+  silent (doc_loop (S (S (S (S n)))) doc (S (S (S k))) (fence :: content ++ fence :: [[]; l]) s) s.
+Proof.
+  intros. rewrite (code_then_paragraph n k doc content l R s Hpl) by assumption. eexists _, _. split; [reflexivity|].
+  unfold code_after, set_closeRe. destruct s; reflexivity.
 Qed.
